@@ -125,6 +125,8 @@ func Assert(id string, c bool) {
 		panic(assertFailed{id})
 	}
 }
+// Hunt is Assert for bug-hunting obligations (a solver "unknown" does not make the check inconclusive).
+func Hunt(id string, c bool) { Assert(id, c) }
 func Reach(label string) { res.Reached = append(res.Reached, label) }
 func Known(id string) bool {
 	for _, k := range cur.Known {
